@@ -262,6 +262,42 @@ func c20Huge(c *mc.Ctx, k c20Case) {
 	}
 }
 
+// c20Cross: the two conversions used one after the other on DIFFERENT values (a conversion must not remember anything
+// about earlier arguments): convert big buffers A then B to strings, then convert short substrings of A's string and of
+// B's string back to bytes - each result shares memory with ITS argument and has cap == len.
+func c20Cross(c *mc.Ctx, k c20Case) {
+	c.Eval(1)
+	variant := os.Getenv("VERIF_C20_VARIANT")
+	if variant == "" {
+		variant = "go121"
+	}
+	bad := func(class, format string, a ...interface{}) {
+		c.Violate("conv", fmt.Sprintf("C20|%s|cross|%s", variant, class), fmt.Sprintf("[%s] BinaryToString(A), BinaryToString(B), then StringToBinary of substrings (buffers of %d bytes, substring [%d:%d]): ", variant, k.N, k.I, k.J)+fmt.Sprintf(format, a...), k)
+	}
+	A, B := c20Content(k.N), c20Content(k.N)
+	for i := range B {
+		B[i] ^= 0x20
+	}
+	sA := unsafex.BinaryToString(A)
+	sB := unsafex.BinaryToString(B[: k.N/2 : k.N]) // an earlier part of another big buffer
+	for round, src := range []string{sA, sB, sA} {
+		if k.J > len(src) {
+			continue
+		}
+		sub := src[k.I:k.J]
+		b := unsafex.StringToBinary(sub)
+		if len(b) != len(sub) || cap(b) != len(sub) || string(b) != sub {
+			bad("content", "round %d: len %d cap %d content %q, want %q with cap == len", round, len(b), cap(b), b, sub)
+			return
+		}
+		if len(sub) > 0 && &b[0] != unsafe.StringData(sub) {
+			bad("copy", "round %d: the bytes obtained from a substring of an earlier conversion result do not share memory with it", round)
+			return
+		}
+		_ = unsafex.BinaryToString(b) // and back again
+	}
+}
+
 func c20Enumerate(c *mc.Ctx) {
 	guard := func(k c20Case, f func(*mc.Ctx, c20Case)) {
 		if pi := mc.Try(func() { f(c, k) }); pi != nil {
@@ -296,6 +332,12 @@ func c20Enumerate(c *mc.Ctx) {
 			}
 		}
 	}
+	for _, n := range []int{64, 8192, 16384, 65536} {
+		for _, ij := range [][2]int{{0, 1}, {3, 3}, {5, 37}, {0, 64}, {n/2 - 10, n/2 - 1}, {10, 10 + 65}} {
+			c.Distinct("cross", n, ij)
+			c20Cross(c, c20Case{Kind: "cross", N: n, I: ij[0], J: ij[1]})
+		}
+	}
 	c20Run(c, c20Case{Kind: "nil-b2s"})
 	c20Run(c, c20Case{Kind: "empty-s2b"})
 	c.Sample("b2s", c20Case{Kind: "b2s", N: 9, I: 2, J: 5, K: 7})
@@ -327,6 +369,8 @@ func init() {
 					f = c20Stack
 				case "huge":
 					f = c20Huge
+				case "cross":
+					f = c20Cross
 				}
 				if pi := mc.Try(func() { f(c, k) }); pi != nil {
 					c.Violate("conv", "C20|"+k.Kind+"|panic", fmt.Sprintf("%s case %+v: panic: %s at %s", k.Kind, k, pi.Msg, pi.Frame), k)
